@@ -15,7 +15,8 @@ META = dict(
                 'route and brute-forces the existence of a disjoint combination',
     bounds=['3-4 ROADM sites, bidirectional links, symbolic link lengths in generic position', '1 group of 2 or 3 requests, or 2 groups '
             'sharing a request; optional STRICT/LOOSE include node on the first request; nested and duplicate groups through '
-            'deduplicate_disjunctions; pairs with an include option on every request (STRICT, LOOSE, unsatisfiable LOOSE, mixed hop types)'],
+            'deduplicate_disjunctions; pairs with an include option on every request (STRICT, LOOSE, unsatisfiable LOOSE, mixed hop types); '
+            'three pair groups forming a cycle; link-only / node-only / both kinds of diversity'],
     assumptions=['floats as reals', 'no exact ties between route lengths', 'completeness (a disjoint solution is found whenever one exists) '
                  'is only claimed, as in the property, for a single pair of requests'],
     stubs=[],
